@@ -462,6 +462,17 @@ def r10(R, repo):
         else:
           R.unsure(key, (f, x), 'cannot tell whether `%s` is a fresh dict' % astu.short(x.args[2]))
   R.require(n >= 6, 'expected >= 6 sites installing _var_metadata, found %d' % n)
+  # update_from_state replaces value *and* metadata on every call: the install may not be skipped on some path
+  uf = mod.func('Variable.update_from_state')
+  cu = cfg_of(uf)
+  inst = [nd for x in astu.func_calls(uf) if astu.call_name(x) == 'object.__setattr__' and len(x.args) == 3 and astu.const_str(x.args[1]) == '_var_metadata' for nd in cu.nodes_for(x)]
+  inst += [nd for nd in cu.nodes if isinstance(nd.stmt, ast.Expr) and isinstance(nd.stmt.value, ast.Call) and astu.call_tail(nd.stmt.value) == 'update' and '_var_metadata' in astu.src(nd.stmt.value.func)]
+  key = key_of(uf, 'metadata replaced on every path')
+  if not inst:
+    R.unsure(key, uf, 'metadata install not found in update_from_state')
+  else:
+    R.check(cu.must_pass(cu.entry, cu.exit, inst, avoid_edges=cu.exc_edges()), key, (uf, inst[0].stmt), evidence=True, msg_fail=
+            'update_from_state can return without installing the state\'s metadata (the install is conditional): a metadata change made inside a transform, or carried by the State given to nnx.update, then never reaches the caller\'s Variable')
 
 
 @rule('C03.R11', 'K4', 1, 'type filters select a Variable type together with its subclasses (shared with C14.R6)')
